@@ -40,15 +40,24 @@ theorem readOpened_spec (ctx : RdCtx) (s : RdState) (join python : Bool) (a deli
       · split <;> rfl
       · split <;> rfl
 
-theorem gate_not_cbfailed (g : Global) (node : Node) (e : Err) (h : gate g node = some e) : e ≠ .parsingCallbackFailed := by
+/-- the codes the gate can hand out -/
+theorem gate_codes (g : Global) (node : Node) (e : Err) (h : gate g node = some e) :
+    e = .fileIsSymLink ∨ e = .wrongOwner ∨ e = .wrongGroup ∨ e = .wrongFilePermission ∨ e = .wrongDirPermission := by
   unfold gate at h
   split at h
-  · cases h; decide
+  · cases h; exact Or.inl rfl
   · split at h
-    · cases h; decide
+    · cases h; exact Or.inr (Or.inl rfl)
     · split at h
-      · cases h; decide
-      · cases h
+      · cases h; exact Or.inr (Or.inr (Or.inl rfl))
+      · split at h
+        · cases h; exact Or.inr (Or.inr (Or.inr (Or.inl rfl)))
+        · split at h
+          · cases h; exact Or.inr (Or.inr (Or.inr (Or.inr rfl)))
+          · cases h
+
+theorem gate_not_cbfailed (g : Global) (node : Node) (e : Err) (h : gate g node = some e) : e ≠ .parsingCallbackFailed := by
+  rcases gate_codes g node e h with h | h | h | h | h <;> (rw [h]; decide)
 
 theorem C06_file (fs : FS) (f : Nat → Str → Bool) (s : RdState) (join python : Bool) (path delim comment : Str) :
     let r := readFileCB { fs := fs, cb := some f } s join python path delim comment
@@ -338,7 +347,8 @@ theorem readFirst_spec (fs : FS) (f : Nat → Str → Bool) (join python : Bool)
 
 
 /-- the security settings of the process-wide state -/
-def secOf (g : Global) : Bool × Nat × Bool × Nat × Bool := (g.ownerSet, g.owner, g.groupSet, g.group, g.allowSymlinks)
+def secOf (g : Global) : Bool × Nat × Bool × Nat × Bool × Bool × Nat × Nat :=
+  (g.ownerSet, g.owner, g.groupSet, g.group, g.allowSymlinks, g.permsSet, g.permsFile, g.permsDir)
 
 /-- the process-wide setting reads depend on, apart from the security settings: the drop-in directory
     list.  (The error-location record `errFile`/`errLine` is written by reads but never read by them.) -/
@@ -456,7 +466,7 @@ theorem gate_secOf (g1 g2 : Global) (h : secOf g1 = secOf g2) (node : Node) : ga
   unfold secOf at h
   simp only [Prod.mk.injEq] at h
   unfold gate
-  rw [h.1, h.2.1, h.2.2.1, h.2.2.2.1, h.2.2.2.2]
+  rw [h.1, h.2.1, h.2.2.1, h.2.2.2.1, h.2.2.2.2.1, h.2.2.2.2.2.1, h.2.2.2.2.2.2.1, h.2.2.2.2.2.2.2]
 
 
 theorem readSeq_sim (fs : FS) (cb1 cb2 : Callback) (join python : Bool) (delim comment : Str)
@@ -744,14 +754,7 @@ theorem parseErr_ne_success (e : Err) (h : ParseErr e) : e ≠ .success := by
   rcases h with h | h | h | h <;> (rw [h]; intro hh; cases hh)
 
 theorem gate_ne_success (g : Global) (node : Node) (e : Err) (h : gate g node = some e) : e ≠ .success := by
-  unfold gate at h
-  split at h
-  · cases h; intro hh; cases hh
-  · split at h
-    · cases h; intro hh; cases hh
-    · split at h
-      · cases h; intro hh; cases hh
-      · cases h
+  rcases gate_codes g node e h with h | h | h | h | h <;> (rw [h]; decide)
 
 theorem readOpened_ne_success (ctx : RdCtx) (s : RdState) (join python : Bool) (a delim comment : Str) (e : Err)
     (h : (readOpened ctx s join python a delim comment).2 = .error e) : e ≠ .success := by
